@@ -19,8 +19,9 @@ import (
 //	           currently written without changing the contents
 //
 // scaled (this binary, copyThreshold=4 maxDeletion=2): 5 named keys, every single-step history;
-// real (second binary, 1000 / 10000): 3 named keys + churn(1|9999|10000), fill(999|1000|1),
-// unfill(1), and two composite first operations that start the search next to the thresholds.
+// real (second binary, 1000 / 10000): 3 named keys + churn(1|9999|10000), fill(999|1), unfill(1), and
+// two composite operations (allowed first, or right after one Set) that start the search next to
+// the thresholds: fill(copyThreshold)+churn(maxDeletion-1) and fill(copyThreshold)+churn(maxDeletion+1).
 //
 // Observation: Size, Get of every named key, of one absent key and of the oldest/newest
 // persistent key, full Range (each pair exactly once, equal to the reference), Range stopped
@@ -41,9 +42,9 @@ func safemapJob(name string, real bool, thorough bool) *job {
 		base = append(base, Op{K: "del", I: i + 1})
 	}
 	base = append(base, Op{K: "get", I: 1}, Op{K: "size"}, Op{K: "range"}, Op{K: "rangestop"})
-	depth := 9
+	depth := 12
 	if thorough {
-		depth = 11
+		depth = 15
 	}
 	var macros, first []Op
 	if real {
@@ -82,8 +83,8 @@ func safemapJob(name string, real bool, thorough bool) *job {
 			out = append(out, Op{K: "del", I: 1}) // Del of an absent key
 		}
 		out = append(out, macros...)
-		if d == 0 {
-			out = append(out, first...)
+		if d <= 1 && (d == 0 || path[0].K == "set") {
+			out = append(out, first...) // composite starts: first op, or right after one Set
 		}
 		return out
 	}
@@ -103,8 +104,8 @@ func safemapJob(name string, real bool, thorough bool) *job {
 			return "writing-old"
 		}
 		fail := func(what, msg string) result {
-			res.class = "safemap-" + what + ":" + phase()
-			res.err = msg + fmt.Sprintf("; state %s; history %v", shapeStr(m), path)
+			res.class = "safemap-" + what
+			res.err = msg + fmt.Sprintf("; state %s %s; history %v", phase(), shapeStr(m), path)
 			return res
 		}
 		keyName := func(i int) string { return fmt.Sprintf("k%d", i-1) }
@@ -159,11 +160,32 @@ func safemapJob(name string, real bool, thorough bool) *job {
 			}
 			return ""
 		}
+		// coverage only (not an oracle): notice a generation switch inside Del by the counters
+		ev := map[string]bool{}
+		del := func(k any) {
+			lo0, ln0, dO0, dN0 := collection.VerifC16SafeMapShape(m)
+			m.Del(k)
+			lo1, ln1, dO1, dN1 := collection.VerifC16SafeMapShape(m)
+			if ln1 == 0 && dN1 == 0 && (ln0 > 0 || dN0 > 0 || dO1 < dO0) {
+				if dO1 < dO0 {
+					ev["old-generation-retired"] = true
+					if lo0 > 0 && ln0 > 0 {
+						ev["old-retired-with-both-generations-populated"] = true
+					}
+				} else if dN0 > 0 {
+					ev["new-generation-folded-back"] = true
+					if ln0 > 0 {
+						ev["new-folded-back-nonempty"] = true
+					}
+				}
+			}
+			_ = lo1
+		}
 		churn := func(n int64) {
 			for c := int64(0); c < n; c++ {
 				fresh--
 				m.Set(fresh, fresh)
-				m.Del(fresh)
+				del(fresh)
 			}
 		}
 		fill := func(n int64) {
@@ -178,7 +200,7 @@ func safemapJob(name string, real bool, thorough bool) *job {
 			for c := int64(0); c < n && fillLo < fillHi; c++ {
 				k := fillBase + fillLo
 				fillLo++
-				m.Del(k)
+				del(k)
 				delete(ref, k)
 			}
 		}
@@ -191,7 +213,7 @@ func safemapJob(name string, real bool, thorough bool) *job {
 				m.Set(keyName(op.I), v)
 				ref[keyName(op.I)] = v
 			case "del":
-				m.Del(keyName(op.I))
+				del(keyName(op.I))
 				delete(ref, keyName(op.I))
 			case "get":
 				if e := checkGet(step, keyName(op.I)); e != "" {
@@ -237,6 +259,16 @@ func safemapJob(name string, real bool, thorough bool) *job {
 		}
 		sort.Strings(rs)
 		res.key = collection.VerifC16DumpSafeMap(m) + "#" + strings.Join(rs, ",") + fmt.Sprintf("#fill[%d,%d)", fillLo, fillHi)
+		if _, ln, dO, _ := collection.VerifC16SafeMapShape(m); dO > mD {
+			ev["writing-new-generation"] = true
+			if ln > 0 {
+				ev["entries-in-both-generations"] = true
+			}
+		}
+		for t := range ev {
+			res.tags = append(res.tags, t)
+		}
+		sort.Strings(res.tags)
 		// observation
 		if m.Size() != len(ref) {
 			return fail("size-wrong", fmt.Sprintf("final observation: Size()=%d, reference %d", m.Size(), len(ref)))
